@@ -216,6 +216,7 @@ def derived_from(name, target, assigns, depth=0) -> bool:
 
 
 HELPER_VARS_PARAM: dict = {}
+ANY_BLOCK_TESTS: set = set()
 
 
 def _wellformed(rep, fi, blocks, assigns, report=True, via_helper=False):
@@ -273,6 +274,7 @@ def _wellformed(rep, fi, blocks, assigns, report=True, via_helper=False):
         raise_ok = warn_ok = False
         raise_why = "no `raise IntegerVariableError` under `strict`"
         warn_why = "no warnings.warn in the non-strict branch"
+        warn_unknown = False
         if "strict" in params:
             for sv in (True, False):
                 def atom_truth(t, state, sv=sv):
@@ -326,13 +328,36 @@ def _wellformed(rep, fi, blocks, assigns, report=True, via_helper=False):
                         if not any(any(derived_from(n, L, assigns) for n in _names_in(c.args[0])) for c in st_["warned"]):
                             good = False
                             warn_why = "the warning message does not interpolate the non-continuous variables' names"
+                            # a message assembled by a helper is not read
+                            def opaque(e, depth=0):
+                                for x in ast.walk(e):
+                                    if isinstance(x, ast.Call):
+                                        d_ = dotted(x.func) or ""
+                                        if isinstance(x.func, ast.Attribute) and x.func.attr in ("join", "format", "name"):
+                                            continue
+                                        if d_ not in ("str", "len", "sorted", "list", "repr", "warnings.warn", "warn"):
+                                            return True
+                                    if isinstance(x, ast.Name) and depth < 2:
+                                        for v_ in assigns.get(x.id, []):
+                                            if isinstance(v_, ast.AST) and opaque(v_, depth + 1):
+                                                return True
+                                return False
+                            if any(opaque(c.args[0]) for c in st_["warned"]):
+                                warn_unknown = True
                     warn_ok = good
         rep.ob("R18.1", construct, raise_ok, "strict=True raises IntegerVariableError listing exactly the filtered variables" if raise_ok else raise_why,
                loc=f"{fi.module.rel}:{ifn.lineno}", detail="strict-raises")
-        rep.ob("R18.1", construct, warn_ok, "strict=False warns with a message naming exactly the filtered variables" if warn_ok else warn_why,
-               loc=f"{fi.module.rel}:{ifn.lineno}", detail="non-strict-warns")
+        if not warn_ok and warn_unknown:
+            rep.undecided(f"{construct}: the warning message is assembled by code this rule does not read; whether it names the filtered variables is not decided")
+        else:
+            rep.ob("R18.1", construct, warn_ok, "strict=False warns with a message naming exactly the filtered variables" if warn_ok else warn_why,
+                   loc=f"{fi.module.rel}:{ifn.lineno}", detail="non-strict-warns", robust="interpolate" in warn_why or "raises instead" in warn_why or warn_ok)
         if src_ok and raise_ok and warn_ok and not extra:
             good_tests.add(id(ifn.test))
+        # for "is the backend reached only through the block" any recognised block counts; what is wrong INSIDE a block is
+        # reported by the obligations above
+        if not extra:
+            ANY_BLOCK_TESTS.add(id(ifn.test))
 
     return good_tests
 
@@ -430,6 +455,7 @@ def _strict_received(fi, call, callee):
 
 def check(prog, rep):
     _STR_CONSTS.clear()
+    ANY_BLOCK_TESTS.clear()
     for m in prog.modules.values():
         for st in m.tree.body:
             tg = st.targets[0] if isinstance(st, ast.Assign) and len(st.targets) == 1 else st.target if isinstance(st, ast.AnnAssign) else None
@@ -515,7 +541,7 @@ def check(prog, rep):
         good_tests = _wellformed(rep, fi, blocks, assigns, report=True) if blocks else set()
 
         def transfer(node, facts, _good=good_tests):
-            if id(node) in _good:
+            if id(node) in _good or id(node) in ANY_BLOCK_TESTS:
                 return facts | {"checked"}
             if not isinstance(node, (ast.FunctionDef, ast.Lambda, ast.ClassDef)):
                 for c in ast.walk(node):
